@@ -52,6 +52,15 @@ BUILT = {
  'C18': dict(cat='exploration', tech='exhaustive round trip of every grid index for n up to 4097 (thorough 1e6) per box, probes on both sides of every cell boundary with a longdouble arccos oracle, exact Fraction reference for poi_scale',
    text='Uniform and Chebyshev index<->point maps: round trip, end points, images in the box, nearest node in the grid parameter (ties free), clamping outside; poi_scale affine with clipping; scalar/vector options and single/batch calls bit-identical; grid_flat order; ValueError for inconsistent option lengths; cdf_getter right-continuous.',
    note='Boxes restricted to K n^2 2^-52 < 1e-3 (Chebyshev) / K n 2^-52 < 1e-3 (uniform), beyond which the nodes are not distinct doubles.', ref='§4 C18'),
+ 'C12': dict(cat='exploration', tech='oracle on executions with numpy.polynomial (monomial and Chebyshev classes) as exact reference: generated polynomial functions in the exactness class pushed through the real interpolation / evaluation / re-sampling / integration / differentiation routines, TT against dense variants',
+   text='func_int / func_get / func_gets / func_sum / func_diff_matrix and the dense func_*_full routines on random sums of products of polynomials of degree < n_k over arbitrary boxes: values, re-sampled grids, exact integrals, derivatives, fill value outside the box, linearity and inversion of the transform, agreement of TT and dense implementations, user bases fitted by func_int_general, sine kind round trip.',
+   note='Tolerance 1e3*2^-52*sum|c||x|^j-style bounds from the polynomial coefficients; differentiation matrices with the (n-1)^(2m) conditioning factor.', ref='§4 C12'),
+ 'C14': dict(cat='exploration', tech='scripted auditing generator passed as seed: records every probability vector offered and drives the sampler down EVERY multi-index of small tensors (product of conditionals == entry / total); exact binomial tail tests on real draws as protocol-independent fallback; structural contracts on all samplers',
+   text='For each tensor (N <= 300 entries) every multi-index is followed and the product of the recorded conditional probabilities must equal Y[j]/sum(Y) resp. Y[j]^2/sum(Y^2); offered vectors must be valid distributions; integer dtype, shape, bounds, uniqueness, Latin-hypercube balance and the sample_tt block layout are checked for arbitrary sizes.',
+   note='Fallback tests at one-sided level 1e-18 per test (per-run false-alarm bound <= 1e-9); sample_square conditioning ratio > 1e6 not judged.', ref='§4 C14'),
+ 'C19': dict(cat='exploration', tech='dense export (own longdouble contraction) against closed forms; exhaustive delta positions incl. negatives up to a bounded q plus sampled q up to 62 by own bit arithmetic on the rank-1 cores; auditing generator recording the single flat draw of the random constructors',
+   text='const (incl. zero lists / protected index / ValueError), delta, vector_delta and matrix_delta at every position, poly for scalar/vector shifts and powers 0..4, rand / rand_norm / rand_custom / rand_stab cores exactly equal to the Fortran-order cut of the recorded draw, rank profiles, value ranges, rand_stab entries of order one at d = 1000.',
+   note='const tolerance 4 d 2^-52 relative (d-th root).', ref='§4 C19'),
  'C01': dict(cat='exploration', tech='shadow-value runtime monitor: random expression programs evaluated by the real functions, every node and observer compared with a longdouble / exact-integer dense shadow',
    text='Oracle on executions of the real add/sub/mul/outer/copy and all evaluation routines over generated programs and TT families; held on the K programs listed in the evidence, never "verified".',
    note='Trusted: NumPy longdouble arithmetic as dense reference; tolerance 10(sum ranks+d)2^-52*absbound; exact Python ints for integer cores.', ref='§4 C01'),
